@@ -194,7 +194,7 @@ func complement(v slip.Object) (result slip.Object) {
 		var bi big.Int
 		bi.Add((*big.Int)(tv), big.NewInt(1))
 		bi.Neg(&bi)
-		result = (*slip.Bignum)(&bi)
+		result = slip.IntegerFromBig(&bi)
 	}
 	return
 }
